@@ -41,6 +41,14 @@ pub struct Case {
     /// see container::INPUT_FAULT) when the creator comes to read it
     #[serde(default)]
     pub input_fault: Option<(usize, u8)>,
+    /// file name of the entry point (default a.jbk); long names make the recorded locations of the
+    /// packs living in their own files exceed what a pack info can hold
+    #[serde(default)]
+    pub out_name: Option<String>,
+    /// after the faulty run, a second, fault-free creation of a SMALLER container at the same
+    /// destination (the retry after a crash, among whatever the first run left behind)
+    #[serde(default)]
+    pub retry: bool,
 }
 
 /// `jbkv create-child <spec.json> <destdir> <name>`: the process that is killed.
@@ -74,6 +82,7 @@ pub struct RunInfo {
     pub leftovers: usize,
 }
 
+#[derive(Clone)]
 pub struct Prepared {
     pub spec: ContainerSpec,
     pub old_spec: ContainerSpec,
@@ -86,6 +95,14 @@ pub struct Prepared {
     pub final_size: u64,
     /// output files other than the entry point
     pub other_files: Vec<String>,
+    /// file name of the entry point
+    pub out_name: String,
+    /// creation may legitimately refuse (a location that does not fit a pack info): a fault-free
+    /// run then need not succeed, but must leave nothing / the previous file
+    pub may_refuse: bool,
+    /// the smaller container created by the retry after a crash, and its model
+    pub retry_spec_path: PathBuf,
+    pub retry_model: ContainerModel,
     /// cumulated bytes at which the first output file reaches its final name is unknown to the
     /// shim; classes use the position relative to the whole stream instead
     pub name: String,
@@ -99,10 +116,31 @@ fn copy_files(from: &Path, to: &Path) {
     }
 }
 
-fn run_child(spec_path: &Path, dest: &Path, env: &[(&str, String)]) -> String {
+/// the previous container under the entry-point name of this scenario (only its entry point is
+/// looked at afterwards: byte-identical or not)
+fn place_old(p: &Prepared, dest: &Path) {
+    copy_files(&p.old_dir, dest);
+    if p.out_name != "a.jbk" {
+        std::fs::rename(dest.join("a.jbk"), dest.join(&p.out_name)).unwrap();
+    }
+}
+
+/// a container of the same packaging, smaller than anything the sweeps create
+fn retry_spec_for(spec: &ContainerSpec) -> ContainerSpec {
+    ContainerSpec {
+        packaging: spec.packaging,
+        comp: Comp::None,
+        contents: vec![ContentSpec { len: 5, ent: Entropy::Text, seed: 99, hint: Hint::No, source: Source::Mem, dup_of: None, flip: None }],
+        extra_packs: vec![],
+        dedup: false,
+        dir: DirSpec::addresses_only(),
+    }
+}
+
+fn run_child(spec_path: &Path, dest: &Path, out_name: &str, env: &[(&str, String)]) -> String {
     let exe = std::env::current_exe().unwrap();
     let mut cmd = std::process::Command::new(exe);
-    cmd.arg("create-child").arg(spec_path).arg(dest).arg("a.jbk").stdout(std::process::Stdio::null()).stderr(std::process::Stdio::null());
+    cmd.arg("create-child").arg(spec_path).arg(dest).arg(out_name).stdout(std::process::Stdio::null()).stderr(std::process::Stdio::null());
     cmd.env("LD_PRELOAD", shim());
     for (k, v) in env {
         cmd.env(k, v);
@@ -138,7 +176,7 @@ pub fn prepare(name: &str, spec: &ContainerSpec, old_spec: &ContainerSpec, scrat
     std::fs::create_dir_all(&cdir).unwrap();
     let report = scratch.join(format!("{name}-report.txt"));
     let _ = std::fs::remove_file(&report);
-    let end = run_child(&spec_path, &cdir, &[("JBKV_MODE", "count".into()), ("JBKV_DIR", cdir.to_string_lossy().to_string()), ("JBKV_REPORT", report.to_string_lossy().to_string())]);
+    let end = run_child(&spec_path, &cdir, "a.jbk", &[("JBKV_MODE", "count".into()), ("JBKV_DIR", cdir.to_string_lossy().to_string()), ("JBKV_REPORT", report.to_string_lossy().to_string())]);
     if end != "success" {
         return Err(format!("fault-free run under the shim ends with {end}"));
     }
@@ -154,11 +192,18 @@ pub fn prepare(name: &str, spec: &ContainerSpec, old_spec: &ContainerSpec, scrat
     let c = jbk::reader::Container::new(cdir.join("a.jbk")).map_err(|e| format!("fault-free result unreadable: {e}"))?;
     verify_container(&c, &built.model, "").map_err(|f| format!("fault-free result differs from the model: {} {}", f.sig, f.msg))?;
     let other_files = built.files.iter().filter(|f| f.as_str() != "a.jbk").cloned().collect();
-    Ok(Prepared { spec: spec.clone(), old_spec: old_spec.clone(), model: built.model, old_dir, old_main, spec_path, total, bounds, final_size, other_files, name: name.to_string() })
+    // the smaller container of the retry-after-crash scenario
+    let rspec = retry_spec_for(spec);
+    let rdir = scratch.join(format!("{name}-retry"));
+    std::fs::create_dir_all(&rdir).unwrap();
+    let rbuilt = build(&rspec, &rdir, "a.jbk", None).map_err(|f| format!("retry build: {} {}", f.sig, f.msg))?;
+    let retry_spec_path = scratch.join(format!("{name}-retry-spec.json"));
+    std::fs::write(&retry_spec_path, serde_json::to_vec(&rspec).unwrap()).unwrap();
+    Ok(Prepared { spec: spec.clone(), old_spec: old_spec.clone(), model: built.model, old_dir, old_main, spec_path, total, bounds, final_size, other_files, out_name: "a.jbk".into(), may_refuse: false, retry_spec_path, retry_model: rbuilt.model, name: name.to_string() })
 }
 
-pub fn examine(dest: &Path, prep_model: &ContainerModel, old_main: Option<&[u8]>) -> (DestState, usize) {
-    let main = dest.join("a.jbk");
+pub fn examine(dest: &Path, out_name: &str, prep_model: &ContainerModel, old_main: Option<&[u8]>) -> (DestState, usize) {
+    let main = dest.join(out_name);
     let leftovers = std::fs::read_dir(dest).map(|d| d.flatten().filter(|e| e.file_name().to_string_lossy().starts_with(".tmp")).count()).unwrap_or(0);
     if !main.exists() {
         return (
@@ -195,19 +240,44 @@ pub fn run_case(p: &Prepared, pre_existing: bool, mode: Mode, budget: u64, dest:
     let _ = std::fs::remove_dir_all(dest);
     std::fs::create_dir_all(dest).unwrap();
     if pre_existing {
-        copy_files(&p.old_dir, dest);
+        place_old(p, dest);
     }
     let end = run_child(
         &p.spec_path,
         dest,
+        &p.out_name,
         &[
             ("JBKV_MODE", match mode { Mode::Kill => "kill", Mode::Enospc => "enospc" }.to_string()),
             ("JBKV_BUDGET", budget.to_string()),
             ("JBKV_DIR", dest.to_string_lossy().to_string()),
         ],
     );
-    let (state, leftovers) = examine(dest, &p.model, if pre_existing { Some(&p.old_main) } else { None });
+    let (state, leftovers) = examine(dest, &p.out_name, &p.model, if pre_existing { Some(&p.old_main) } else { None });
     RunInfo { child_end: end, state, leftovers }
+}
+
+/// Retry after a crash: the faulty run of `p.spec` (fresh destination), then, among whatever it
+/// left behind, a fault-free creation of a smaller container under the same name.
+pub fn run_retry(p: &Prepared, mode: Mode, budget: u64, dest: &Path) -> RunInfo {
+    let _ = std::fs::remove_dir_all(dest);
+    std::fs::create_dir_all(dest).unwrap();
+    let first = run_child(
+        &p.spec_path,
+        dest,
+        &p.out_name,
+        &[("JBKV_MODE", match mode { Mode::Kill => "kill", Mode::Enospc => "enospc" }.to_string()), ("JBKV_BUDGET", budget.to_string()), ("JBKV_DIR", dest.to_string_lossy().to_string())],
+    );
+    let end = run_child(&p.retry_spec_path, dest, &p.out_name, &[("JBKV_MODE", "count".to_string()), ("JBKV_DIR", dest.to_string_lossy().to_string())]);
+    let (state, leftovers) = examine(dest, &p.out_name, &p.retry_model, None);
+    RunInfo { child_end: format!("{first}, then {end}"), state, leftovers }
+}
+
+pub fn judge_retry(p: &Prepared, budget: u64, info: &RunInfo) -> Option<Failure> {
+    match &info.state {
+        DestState::NewOk if info.child_end.ends_with("then success") => None,
+        DestState::Bad(sig, msg) => Some(Failure::new(format!("retry-after-crash:{sig}"), format!("first creation stopped at budget {budget}/{}, a smaller container was then created at the same destination without any fault: children {}: {msg}", p.total, info.child_end))),
+        other => Some(Failure::new("retry-after-crash:fault-free-run-fails", format!("first creation stopped at budget {budget}/{}, the fault-free retry: children {}, destination {other:?}", p.total, info.child_end))),
+    }
 }
 
 /// rename-failure variant: no write fault, but `file` cannot be put in place
@@ -215,13 +285,13 @@ pub fn run_obstructed(p: &Prepared, pre_existing: bool, file: &str, dest: &Path)
     let _ = std::fs::remove_dir_all(dest);
     std::fs::create_dir_all(dest).unwrap();
     if pre_existing {
-        copy_files(&p.old_dir, dest);
+        place_old(p, dest);
     }
     let ob = dest.join(file);
     let _ = std::fs::remove_file(&ob);
     std::fs::create_dir_all(ob.join("occupied")).unwrap();
-    let end = run_child(&p.spec_path, dest, &[("JBKV_MODE", "count".to_string()), ("JBKV_DIR", dest.to_string_lossy().to_string())]);
-    let (state, leftovers) = examine(dest, &p.model, if pre_existing { Some(&p.old_main) } else { None });
+    let end = run_child(&p.spec_path, dest, &p.out_name, &[("JBKV_MODE", "count".to_string()), ("JBKV_DIR", dest.to_string_lossy().to_string())]);
+    let (state, leftovers) = examine(dest, &p.out_name, &p.model, if pre_existing { Some(&p.old_main) } else { None });
     RunInfo { child_end: end, state, leftovers }
 }
 
@@ -230,10 +300,10 @@ pub fn run_input_fault(p: &Prepared, pre_existing: bool, fault: (usize, u8), des
     let _ = std::fs::remove_dir_all(dest);
     std::fs::create_dir_all(dest).unwrap();
     if pre_existing {
-        copy_files(&p.old_dir, dest);
+        place_old(p, dest);
     }
-    let end = run_child(&p.spec_path, dest, &[("JBKV_MODE", "count".to_string()), ("JBKV_DIR", dest.to_string_lossy().to_string()), ("JBKV_INPUT_FAULT", format!("{}:{}", fault.0, fault.1))]);
-    let (state, leftovers) = examine(dest, &p.model, if pre_existing { Some(&p.old_main) } else { None });
+    let end = run_child(&p.spec_path, dest, &p.out_name, &[("JBKV_MODE", "count".to_string()), ("JBKV_DIR", dest.to_string_lossy().to_string()), ("JBKV_INPUT_FAULT", format!("{}:{}", fault.0, fault.1))]);
+    let (state, leftovers) = examine(dest, &p.out_name, &p.model, if pre_existing { Some(&p.old_main) } else { None });
     RunInfo { child_end: end, state, leftovers }
 }
 
@@ -261,6 +331,13 @@ pub fn judge(p: &Prepared, budget: u64, info: &RunInfo) -> Option<Failure> {
     if let DestState::Bad(sig, msg) = &info.state {
         return Some(Failure::new(sig.clone(), format!("budget {budget}/{}: child {}: {msg}", p.total, info.child_end)));
     }
+    if budget >= p.total && p.may_refuse && info.child_end != "success" {
+        // refused (a location too long for a pack info): nothing new may have appeared
+        return match info.state {
+            DestState::NewOk => Some(Failure::new("refused-yet-present", format!("creation ended with {} and the destination reads as the new container", info.child_end))),
+            _ => None,
+        };
+    }
     if budget >= p.total {
         if info.child_end != "success" || info.state != DestState::NewOk {
             return Some(Failure::new("no-fault-run-fails", format!("budget {budget} >= total {}: child {} and destination {:?}", p.total, info.child_end, info.state)));
@@ -285,13 +362,27 @@ pub fn replay_child_cmd(path: &Path) -> i32 {
     let saved: SavedFailure = serde_json::from_str(&txt).expect("replay file is a SavedFailure");
     let case: Case = serde_json::from_value(saved.case).expect("case decodes");
     let scratch = tempfile::Builder::new().prefix("jbkv-C09-replay-").tempdir_in(scratch_root()).unwrap();
-    let p = match prepare("replay", &case.spec, &case.old_spec, scratch.path()) {
+    let mut p = match prepare("replay", &case.spec, &case.old_spec, scratch.path()) {
         Ok(p) => p,
         Err(e) => {
             println!("FAIL prepare\u{1}{e}");
             return 1;
         }
     };
+    if let Some(n) = &case.out_name {
+        p.out_name = n.clone();
+        p.may_refuse = true;
+    }
+    if case.retry {
+        for _ in 0..3 {
+            let info = run_retry(&p, case.mode, case.budget, &scratch.path().join("dest"));
+            if let Some(f) = judge_retry(&p, case.budget, &info) {
+                println!("FAIL {}\u{1}{}", f.sig, f.msg.replace('\n', " "));
+                return 1;
+            }
+        }
+        return 0;
+    }
     if let Some(fault) = case.input_fault {
         let info = run_input_fault(&p, case.pre_existing, fault, &scratch.path().join("dest"));
         if let Some(f) = judge_input_fault(fault, &info) {
@@ -386,7 +477,7 @@ pub fn check_cmd(tier: Tier) -> i32 {
             Ok(p) => preps.push((p, *stride)),
             Err(e) => {
                 // the fault-free path itself is broken: that is a violation of "budget >= total must succeed"
-                let saved = SavedFailure { property: id.into(), sig: "fault-free-run-broken".into(), msg: e.clone(), case: serde_json::to_value(Case { spec: spec.clone(), old_spec: old_spec_for(spec), pre_existing: false, mode: Mode::Enospc, budget: u64::MAX / 2, obstruct: None, input_fault: None }).unwrap(), note: format!("spec {name}") };
+                let saved = SavedFailure { property: id.into(), sig: "fault-free-run-broken".into(), msg: e.clone(), case: serde_json::to_value(Case { spec: spec.clone(), old_spec: old_spec_for(spec), pre_existing: false, mode: Mode::Enospc, budget: u64::MAX / 2, obstruct: None, input_fault: None, out_name: None, retry: false }).unwrap(), note: format!("spec {name}") };
                 if known.contains(&saved.sig) {
                     continue;
                 }
@@ -397,9 +488,27 @@ pub fn check_cmd(tier: Tier) -> i32 {
             }
         }
     }
+    // entry-point names of 150..250 bytes: from 212 (TwoFiles) / 211 (NoConcat) bytes on, the recorded
+    // location of the packs living in their own files no longer fits the 213 bytes of a pack info.
+    // Creation may then refuse, leaving nothing (or the previous file); it may not put an entry
+    // point in place that cannot reach its packs
+    let n_plain = preps.len();
+    for pi in 0..n_plain {
+        if !preps[pi].0.name.starts_with("tiny-") {
+            continue;
+        }
+        for len in [150usize, 211, 212, 213, 230, 250] {
+            let mut p = preps[pi].0.clone();
+            p.out_name = format!("{}.jbk", "n".repeat(len - 4));
+            p.may_refuse = true;
+            p.name = format!("{}-name{len}", p.name);
+            let stride = (p.total / 40).max(1);
+            preps.push((p, stride));
+        }
+    }
     // rename failures: every output file other than the entry point x {fresh, pre-existing}
     let mut obstruct_runs = 0u64;
-    for (p, _) in &preps {
+    for (p, _) in preps.iter().filter(|(p, _)| !p.may_refuse) {
         for file in &p.other_files {
             for pre in [false, true] {
                 let dest = scratch.path().join("dest-obstruct");
@@ -411,7 +520,7 @@ pub fn check_cmd(tier: Tier) -> i32 {
                         *summary.merged.excluded_known.entry(f.sig).or_default() += 1;
                         continue;
                     }
-                    let saved = SavedFailure { property: id.into(), sig: f.sig.clone(), msg: f.msg.clone(), case: serde_json::to_value(Case { spec: p.spec.clone(), old_spec: p.old_spec.clone(), pre_existing: pre, mode: Mode::Enospc, budget: 0, obstruct: Some(file.clone()), input_fault: None }).unwrap(), note: format!("rename of {file} obstructed; spec {}", p.name) };
+                    let saved = SavedFailure { property: id.into(), sig: f.sig.clone(), msg: f.msg.clone(), case: serde_json::to_value(Case { spec: p.spec.clone(), old_spec: p.old_spec.clone(), pre_existing: pre, mode: Mode::Enospc, budget: 0, obstruct: Some(file.clone()), input_fault: None, out_name: None, retry: false }).unwrap(), note: format!("rename of {file} obstructed; spec {}", p.name) };
                     let path = save_replay(id, &format!("s{seed}-obstruct-{}-{}", p.name, file.replace('.', "_")), &saved);
                     println!("VIOLATION property={id} replay={}", path.display());
                     eprintln!("  sig={} msg={}", f.sig, f.msg);
@@ -426,7 +535,7 @@ pub fn check_cmd(tier: Tier) -> i32 {
     // after add_content (kinds 1, 2) raises no error anywhere - the creator then reports success for
     // a container whose content cannot be decoded - and is not demanded (DESIGN §14)
     let mut input_runs = 0u64;
-    for (p, _) in &preps {
+    for (p, _) in preps.iter().filter(|(p, _)| !p.may_refuse) {
         if p.spec.contents.len() > 12 {
             continue;
         }
@@ -442,7 +551,7 @@ pub fn check_cmd(tier: Tier) -> i32 {
                             *summary.merged.excluded_known.entry(f.sig).or_default() += 1;
                             continue;
                         }
-                        let saved = SavedFailure { property: id.into(), sig: f.sig.clone(), msg: f.msg.clone(), case: serde_json::to_value(Case { spec: p.spec.clone(), old_spec: p.old_spec.clone(), pre_existing: pre, mode: Mode::Enospc, budget: 0, obstruct: None, input_fault: Some((k, kind)) }).unwrap(), note: format!("input of content #{k} unreadable; spec {}", p.name) };
+                        let saved = SavedFailure { property: id.into(), sig: f.sig.clone(), msg: f.msg.clone(), case: serde_json::to_value(Case { spec: p.spec.clone(), old_spec: p.old_spec.clone(), pre_existing: pre, mode: Mode::Enospc, budget: 0, obstruct: None, input_fault: Some((k, kind)), out_name: None, retry: false }).unwrap(), note: format!("input of content #{k} unreadable; spec {}", p.name) };
                         let path = save_replay(id, &format!("s{seed}-input-{}-{k}-{kind}", p.name), &saved);
                         println!("VIOLATION property={id} replay={}", path.display());
                         eprintln!("  sig={} msg={}", f.sig, f.msg);
@@ -459,6 +568,7 @@ pub fn check_cmd(tier: Tier) -> i32 {
         pre: bool,
         mode: Mode,
         budget: u64,
+        retry: bool,
     }
     let mut jobs = vec![];
     for (pi, (p, stride)) in preps.iter().enumerate() {
@@ -480,10 +590,26 @@ pub fn check_cmd(tier: Tier) -> i32 {
         }
         budgets.insert(p.total);
         budgets.insert(p.total + 1);
+        if p.may_refuse {
+            // long names: a coarse sweep only (the stream is the one of the plain spec)
+            let all: Vec<u64> = budgets.iter().copied().collect();
+            budgets = all.into_iter().filter(|b| *b % stride == 0 || *b >= p.total).collect();
+        }
         for b in budgets {
             for pre in [false, true] {
                 for mode in [Mode::Kill, Mode::Enospc] {
-                    jobs.push(Job { prep: pi, pre, mode, budget: b });
+                    jobs.push(Job { prep: pi, pre, mode, budget: b, retry: false });
+                }
+            }
+        }
+        // retry after a crash: 48 crash points spread over the stream (denser towards its end,
+        // where most has been written), then a fault-free creation of a smaller container
+        if !p.may_refuse {
+            let mut rb: BTreeSet<u64> = (1..=32u64).map(|k| p.total * k / 33).collect();
+            rb.extend((0..16u64).map(|k| p.total.saturating_sub(1 + k * (p.total / 64).max(1))));
+            for b in rb {
+                for mode in [Mode::Kill, Mode::Enospc] {
+                    jobs.push(Job { prep: pi, pre: false, mode, budget: b, retry: true });
                 }
             }
         }
@@ -515,9 +641,33 @@ pub fn check_cmd(tier: Tier) -> i32 {
                     }
                     let j = &jobs[i];
                     let p = &preps[j.prep].0;
+                    if j.retry {
+                        let info = run_retry(p, j.mode, j.budget, &dest);
+                        let f = judge_retry(p, j.budget, &info);
+                        let mut t = tally.lock().unwrap();
+                        *t.classes.entry(format!("retry-after-crash:{}", match &info.state { DestState::NewOk => "new-ok", DestState::Absent => "absent", DestState::Old => "old", DestState::Bad(..) => "BAD" })).or_default() += 1;
+                        if info.leftovers > 0 {
+                            *t.classes.entry("retry-after-crash:among-leftover-temp-files".into()).or_default() += 1;
+                        }
+                        if let Some(f) = f {
+                            if known.contains(&f.sig) {
+                                *t.excluded.entry(f.sig.clone()).or_default() += 1;
+                            } else {
+                                *t.classes.entry(format!("violation:{}", f.sig)).or_default() += 1;
+                                let better = t.failures.get(&f.sig).map_or(true, |old| j.budget < old.4);
+                                if better {
+                                    t.failures.insert(f.sig.clone(), (f, j.prep, j.pre, j.mode, j.budget));
+                                }
+                            }
+                        }
+                        continue;
+                    }
                     let info = run_case(p, j.pre, j.mode, j.budget, &dest);
                     let f = judge(p, j.budget, &info);
                     let mut t = tally.lock().unwrap();
+                    if p.may_refuse {
+                        *t.classes.entry(format!("long-name:{}:{}", if info.child_end == "success" { "created" } else { "not-created" }, match &info.state { DestState::NewOk => "new-ok", DestState::Absent => "absent", DestState::Old => "old", DestState::Bad(..) => "BAD" })).or_default() += 1;
+                    }
                     let st = match &info.state {
                         DestState::Absent => "absent",
                         DestState::Old => "old",
@@ -569,7 +719,13 @@ pub fn check_cmd(tier: Tier) -> i32 {
     summary.merged.excluded_known = t.excluded;
     for (k, (sig, (f, prep, pre, mode, budget))) in t.failures.into_iter().enumerate() {
         let p = &preps[prep].0;
-        let saved = SavedFailure { property: id.into(), sig: sig.clone(), msg: f.msg.clone(), case: serde_json::to_value(Case { spec: p.spec.clone(), old_spec: p.old_spec.clone(), pre_existing: pre, mode, budget, obstruct: None, input_fault: None }).unwrap(), note: format!("smallest failing budget of signature; spec {}", p.name) };
+        let saved = SavedFailure {
+            property: id.into(),
+            sig: sig.clone(),
+            msg: f.msg.clone(),
+            case: serde_json::to_value(Case { spec: p.spec.clone(), old_spec: p.old_spec.clone(), pre_existing: pre, mode, budget, obstruct: None, input_fault: None, out_name: if p.out_name != "a.jbk" { Some(p.out_name.clone()) } else { None }, retry: sig.starts_with("retry-after-crash") }).unwrap(),
+            note: format!("smallest failing budget of signature; spec {}", p.name),
+        };
         let path = save_replay(id, &format!("s{seed}-{k}"), &saved);
         println!("VIOLATION property={id} replay={}", path.display());
         eprintln!("  sig={sig} msg={}", f.msg);
@@ -577,7 +733,7 @@ pub fn check_cmd(tier: Tier) -> i32 {
     }
     summary.extra.insert("specs".into(), serde_json::json!(preps.iter().map(|(p, stride)| format!("{}: {} bytes of write traffic in {} calls, final size {}, budget stride {}", p.name, p.total, p.bounds.len(), p.final_size, stride)).collect::<Vec<_>>()));
     summary.extra.insert("exhaustive".into(), serde_json::json!(false));
-    let rule = "enumeration of crash points: BasicCreator runs in a child process under an LD_PRELOAD shim that gives the process a byte budget over all writes to regular files of the destination directory (write/pwrite/writev/copy_file_range/sendfile): the call crossing the budget is shortened, the next one kills the process (SIGKILL) or fails with ENOSPC from then on. For each spec (tiny containers in the three packagings with every byte offset 0..total; larger ones with a stride plus every write-call boundary +-1) x {fresh destination, destination holding a previous complete container of other content} x {kill, ENOSPC}. Oracle on the destination directory after the child ended, however it ended: the entry point is absent (only if nothing was there before), byte-identical to the previous file, or opens with Container::new, check()==true and every entry and content equal to the model of the new spec (so every pack file it refers to is complete); with budget >= total the run must succeed. Non-trivial = budget strictly inside the write stream; distinct by (spec, pre-existing, mode, decile of the stream, destination state, how the child ended). Two further fault kinds, each x {fresh, pre-existing}: (rename obstruction) a non-empty directory sits at the final path of an output file other than the entry point: the entry point must not appear as the new container; (unreadable input) every content of the main pack in turn is handed over as a file whose reads fail when the creator comes to it: creation must fail leaving nothing / the previous file, or (content already read) produce the complete container.";
+    let rule = "enumeration of crash points: BasicCreator runs in a child process under an LD_PRELOAD shim that gives the process a byte budget over all writes to regular files of the destination directory (write/pwrite/writev/copy_file_range/sendfile): the call crossing the budget is shortened, the next one kills the process (SIGKILL) or fails with ENOSPC from then on. For each spec (tiny containers in the three packagings with every byte offset 0..total; larger ones with a stride plus every write-call boundary +-1) x {fresh destination, destination holding a previous complete container of other content} x {kill, ENOSPC}. Oracle on the destination directory after the child ended, however it ended: the entry point is absent (only if nothing was there before), byte-identical to the previous file, or opens with Container::new, check()==true and every entry and content equal to the model of the new spec (so every pack file it refers to is complete); with budget >= total the run must succeed. Non-trivial = budget strictly inside the write stream; distinct by (spec, pre-existing, mode, decile of the stream, destination state, how the child ended). Further scenarios: (retry after a crash) 48 crash points per spec, each followed by a fault-free creation of a smaller container at the same destination among whatever the first run left: it must succeed and read as its model; (long names) entry-point names of 150..250 bytes, where the recorded location of a pack living in its own file stops fitting a pack info: creation may refuse, leaving nothing / the previous file, and otherwise the entry point reaches every pack; (rename obstruction) a non-empty directory sits at the final path of an output file other than the entry point: the entry point must not appear as the new container; (unreadable input) every content of the main pack in turn is handed over as a file whose reads fail when the creator comes to it: creation must fail leaving nothing / the previous file, or (content already read) produce the complete container.";
     write_evidence(id, "fault_enumeration", tier, seed, rule, vec!["crash = process termination or write error; the page cache survives (no power-loss claim)".into(), "failures of rename itself are not injected (rustix raw syscalls are invisible to the shim); killing at the adjacent writes yields the same destination states".into(), "leftover temporary files are allowed: the property speaks about the destination path".into()], t0, &summary);
     if !summary.violations.is_empty() {
         return 1;
